@@ -24,9 +24,11 @@ from . import plan as P
 PHASES = ["W0", "W1", "W2", "W3", "W4"]
 
 
-def world_for(seed: int, tier: str) -> tuple[dict, int]:
+def world_for(seed: int, tier: str, force_cls: str | None = None) -> tuple[dict, int]:
     rng = random.Random(seed)
     cls = rng.choice(P.DET_SOLVERS)
+    if force_cls:
+        cls = force_cls
     prob = P.draw_problem(rng, need_anchor=cls in ("RVI", "PER"))
     prob["n"] = rng.randint(3, 8)
     sol = P.draw_solver(rng, cls, prob["n"], never_converge=True, shuffle=False)
@@ -35,16 +37,17 @@ def world_for(seed: int, tier: str) -> tuple[dict, int]:
     T = rng.randint(5, 7) if tier == "quick" else rng.randint(6, 12)
     f = rng.randint(1, 3)
     m = rng.randint(1, 2)
-    return {"problem": prob, "solver": sol, "ckpt": {"f": f, "m": m, "async": rng.random() < 0.7}}, T
+    asyn = rng.random() < 0.7 or bool(force_cls)
+    return {"problem": prob, "solver": sol, "ckpt": {"f": f, "m": m, "async": asyn}}, T
 
 
-def list_killpoints(seed: int, tier: str) -> dict:
+def list_killpoints(seed: int, tier: str, force_cls: str | None = None) -> dict:
     """Runs in a worker: trace the world and return every kill-point plan."""
     from . import cases
     from . import props as Q
     from .world import execute
 
-    world, T = world_for(seed, tier)
+    world, T = world_for(seed, tier, force_cls)
     root = cases.scratch_root()
     try:
         ctl = Q.run_control(world, T, root)
@@ -109,9 +112,13 @@ def run(pools, tier, verif_seed, deadline, known):
 
     from .check import split_known
 
-    n_worlds = 2 if tier == "quick" else 48
-    worlds = []
-    futs = [pools.submit_custom(1, "mdpsim.enum_c11.list_killpoints", P.run_seed("C11-enum", verif_seed, i), tier) for i in range(n_worlds)]
+    n_worlds = 3 if tier == "quick" else 48
+    # the first world is always the periodic solver, asynchronous: the one solver whose saved
+    # state contains a buffer that the solver keeps mutating in place while the writer lags
+    futs = [
+        pools.submit_custom(1, "mdpsim.enum_c11.list_killpoints", P.run_seed("C11-enum", verif_seed, i), tier, "PER" if i % 8 == 0 else None)
+        for i in range(n_worlds)
+    ]
     out = {"violations": [], "known": {}, "evaluations": 0, "distinct_nontrivial": 0, "samples": [], "x_enumeration": {"worlds": []}}
     all_done = True
     fired = {}
